@@ -17,7 +17,7 @@ CONSTANTS
   MaxWrites = 2
   MaxReads = 2
   MaxLen = 4194400
-  PairFirst = {1, 4096, 1048544, 1048560}
+  PairFirst = {1, 1048560}
   TypedFlush = {FALSE}
   Interleave = FALSE
   Bug = {}
